@@ -3,6 +3,7 @@ package main
 import (
 	"bufio"
 	"fmt"
+	"io"
 	"log"
 	"os"
 	"path/filepath"
@@ -45,7 +46,9 @@ func init() {
 	// The emulator logs invalid opcodes through the standard logger; the
 	// checks never compare log output (DESIGN §6) but count it in the
 	// single-threaded pre-pass to *measure* the implemented set.
-	log.SetOutput(logSink)
+	// Outside the pre-pass the logger discards (the standard logger then skips
+	// formatting altogether, so 16 workers do not contend on its mutex).
+	log.SetOutput(io.Discard)
 	log.SetFlags(0)
 }
 
@@ -91,6 +94,8 @@ func encName(t []uint8) string {
 // implemented: one Step from a neutral state must not log "invalid code".
 // Must be called single-threaded.
 func implementedByStep(t []uint8) (ok bool, panicked interface{}) {
+	log.SetOutput(logSink)
+	defer log.SetOutput(io.Discard)
 	mem := make(z80.DumbMemory, 65536)
 	copy(mem[0x100:], t)
 	cpu := z80.CPU{Memory: mem, IO: make(z80.DumbIO, 256)}
